@@ -94,6 +94,12 @@ func parseAudioMeta(m *sdp.Format, audio *codec.AudioMeta) {
 
 			// audio.SetParameterSet(aac.ParameterSetConfig, config)
 			audio.Sps = config
+			if m.Channels == 0 { // rtpmap without a channel count: take it from the AudioSpecificConfig
+				var asc aac.AudioSpecificConfig
+				if asc.Decode(config) == nil && asc.Channels > 0 {
+					audio.Channels = int(asc.Channels)
+				}
+			}
 			_ = aac.MetadataIsReady(audio)
 			break
 		}
